@@ -144,15 +144,16 @@ type JQLine struct {
 
 // JQOpts configures one JobQueue world.
 type JQOpts struct {
-	NJC       int   // number of JobConfigs (1..2)
-	MaxC      []int // maxConcurrency per JobConfig
-	StoreLag  bool  // the store's listener lags behind the cache
-	JCSync    bool  // run the real jobconfigcontroller too
-	JCLag     bool  // JobConfig objects are not delivered to the cache before Jobs are created
-	Fifo      bool  // workload profile: one JobConfig at its limit, mostly Enqueue Jobs, no edits (order-sensitive interleavings)
-	JobsFirst bool  // on a restart the Job informer lists (and its handlers run) before the JobConfig informer has listed
-	StatusLag bool  // workload profile for the jobconfigcontroller: its own status writes reach the JobConfig cache late, Jobs finish unstarted or leave early
-	MaxJobs   int
+	NJC        int   // number of JobConfigs (1..2)
+	MaxC       []int // maxConcurrency per JobConfig
+	StoreLag   bool  // the store's listener lags behind the cache
+	JCSync     bool  // run the real jobconfigcontroller too
+	JCLag      bool  // JobConfig objects are not delivered to the cache before Jobs are created
+	Fifo       bool  // workload profile: one JobConfig at its limit, mostly Enqueue Jobs, no edits (order-sensitive interleavings)
+	JobsFirst  bool  // on a restart the Job informer lists (and its handlers run) before the JobConfig informer has listed
+	WatchBreak bool  // the Job watch may break (undelivered events lost, re-list with tombstones)
+	StatusLag  bool  // workload profile for the jobconfigcontroller: its own status writes reach the JobConfig cache late, Jobs finish unstarted or leave early
+	MaxJobs    int
 }
 
 // JQ is the JobQueue module world: real activejobstore, jobqueuecontroller (both
@@ -801,7 +802,7 @@ func (q *JQ) Enabled(rng *rand.Rand, maxTime int, faultP float64, applied bool) 
 	}
 	if w.Inf.Jobs.Pending() > 0 {
 		add(Label{A: "Deliver"}, 4)
-		if !q.O.StoreLag && w.Inf.Jobs.Backlog(q.storeH) == 0 && rng.Intn(15) == 0 {
+		if q.O.WatchBreak && !q.O.StoreLag && w.Inf.Jobs.Backlog(q.storeH) == 0 && rng.Intn(6) == 0 {
 			add(Label{A: "JobWatchBreak"}, 1)
 		}
 	}
